@@ -113,6 +113,26 @@ count; on naturals it is the translated Go expression (`Tie/ProxyLib.lean`). -/
 theorem load_arith (c : Int) : (8 : Int) ∣ load c ∧ (0 ≤ c → load c ≤ c) ∧ ∀ n : Nat, load (n : Int) = (loadNat n : Int) :=
   ⟨load_dvd c, load_le c, load_nat⟩
 
+/-- The reported load is the count rounded *down* to a multiple of 8: it understates by fewer than 8
+(so the broker learns the count's bucket `8k … 8k+7` and nothing finer), … -/
+theorem loadNat_within_8 (n : Nat) : loadNat n ≤ n ∧ n < loadNat n + 8 := by
+  unfold loadNat; omega
+
+/-- … it is monotone (more clients never report as fewer), … -/
+theorem loadNat_mono (a b : Nat) (h : a ≤ b) : loadNat a ≤ loadNat b := by
+  unfold loadNat; omega
+
+/-- … and it is zero exactly while fewer than 8 clients are served. -/
+theorem loadNat_zero_iff (n : Nat) : loadNat n = 0 ↔ n < 8 := by
+  unfold loadNat; omega
+
+/-- The same bound for the Go `int` expression on every non-negative count. -/
+theorem load_within_8 (c : Int) (hc : 0 ≤ c) : load c ≤ c ∧ c < load c + 8 := by
+  obtain ⟨n, rfl⟩ := Int.eq_ofNat_of_zero_le hc
+  rw [(load_arith (n : Int)).2.2 n]
+  have := loadNat_within_8 n
+  omega
+
 /-- **The load reported in every poll is a multiple of 8 and does not exceed the slots in use.**
 `polls` logs every poll sent with the number of sessions holding a slot at that moment. -/
 theorem load_multiple_of_8_le_in_use (N : Nat) (s : St) (h : Reachable true N s) :
